@@ -1,6 +1,7 @@
 package recovery
 
 import (
+	"bytes"
 	"encoding/json"
 	"fmt"
 	"io"
@@ -167,6 +168,16 @@ func LoadCheckpointList(fs storage.FileSystem, dataOwnership kv.DataOwnership, c
 		// Merge level list
 		for levelIndex, level := range doc.Levels {
 			compositeCheckpointDoc.Levels[levelIndex] = append(compositeCheckpointDoc.Levels[levelIndex], level...)
+		}
+	}
+
+	// Levels below the first are binary searched by key range, so they must stay
+	// ordered by key after tables of several instances were appended in handle order.
+	if len(rest) > 0 {
+		for levelIndex := 1; levelIndex < len(compositeCheckpointDoc.Levels); levelIndex++ {
+			slices.SortStableFunc(compositeCheckpointDoc.Levels[levelIndex], func(a, b sst.TableDocument) int {
+				return bytes.Compare(a.StartKey, b.StartKey)
+			})
 		}
 	}
 
